@@ -4,7 +4,11 @@ val nth_error : 'a1 list -> nat -> 'a1 option
 
 val map : ('a1 -> 'a2) -> 'a1 list -> 'a2 list
 
+val fold_left : ('a1 -> 'a2 -> 'a1) -> 'a2 list -> 'a1 -> 'a1
+
 val existsb : ('a1 -> bool) -> 'a1 list -> bool
+
+val forallb : ('a1 -> bool) -> 'a1 list -> bool
 
 val firstn : nat -> 'a1 list -> 'a1 list
 
